@@ -57,8 +57,9 @@ type cmpTest struct {
 }
 
 type localKey struct {
-	canon string
-	mask  int
+	canon  string
+	mask   int
+	fields []*types.Var
 }
 
 type cmpAn struct {
@@ -109,6 +110,7 @@ func (a *cmpAn) canon(e ast.Expr) (string, int, []*types.Var) {
 			default:
 				if lk, ok := a.locals[o]; ok && o != nil {
 					mask |= lk.mask
+					fields = append(fields, lk.fields...)
 					sb.WriteString("{" + lk.canon + "}")
 				} else {
 					sb.WriteString(x.Name)
@@ -167,12 +169,12 @@ func (a *cmpAn) localObj(e ast.Expr) types.Object {
 	return nil
 }
 
-func (a *cmpAn) define(lhs, rhs ast.Expr, guard string, gmask int, pos token.Pos) bool {
+func (a *cmpAn) define(lhs, rhs ast.Expr, guard string, gmask int, pos token.Pos, gfields ...*types.Var) bool {
 	o := a.localObj(lhs)
 	if o == nil {
 		return false
 	}
-	rc, rm, _ := a.canon(rhs)
+	rc, rm, rf := a.canon(rhs)
 	m := rm | gmask
 	lk := a.locals[o]
 	if lk == nil {
@@ -185,6 +187,8 @@ func (a *cmpAn) define(lhs, rhs ast.Expr, guard string, gmask int, pos token.Pos
 		lk.canon += "; " + rc
 	}
 	lk.mask |= m
+	lk.fields = append(lk.fields, rf...)
+	lk.fields = append(lk.fields, gfields...)
 	if lk.mask == 3 {
 		a.problem(pos, "", "local key variable %s depends on both operands", ExprString(lhs))
 	}
@@ -363,7 +367,7 @@ func (a *cmpAn) ifStmt(s *ast.IfStmt, top bool) {
 		a.problem(s.Pos(), "", "if with init/else in comparator")
 		return
 	}
-	cc, cm, _ := a.canon(s.Cond)
+	cc, cm, cf := a.canon(s.Cond)
 	// conditional refinement of local keys
 	allAssign := len(s.Body.List) > 0
 	for _, b := range s.Body.List {
@@ -382,7 +386,7 @@ func (a *cmpAn) ifStmt(s *ast.IfStmt, top bool) {
 		for _, b := range s.Body.List {
 			as := b.(*ast.AssignStmt)
 			for i := range as.Lhs {
-				a.define(as.Lhs[i], as.Rhs[i], cc, cm, as.Pos())
+				a.define(as.Lhs[i], as.Rhs[i], cc, cm, as.Pos(), cf...)
 			}
 		}
 		return
